@@ -13,7 +13,7 @@ LEVEL_TEXT = ("Static structural proof of necessary conditions: (R15.1) alias-ba
               "(R15.3) in the grouping parser each branch taken on an opening symbol reaches its end only through a test "
               "of the matching closing token whose failing edge raises, and _parse raises when tokens remain. Matching "
               "semantics, the algebraic laws and sibling-order invariance are NOT decided.")
-LEVEL_EXTRA = 'Added after the seeded evaluation: (R15.3) every opening grouping token, including the exact-match form, tests its closing token and raises, and the token fetcher raises past the end; (R15.4) search results are merged and compared by object identity, never by tag equality.'
+LEVEL_EXTRA = 'Added after the seeded evaluation: (R15.3) every opening grouping token, including the exact-match form, tests its closing token and raises, and the token fetcher raises past the end; (R15.4) search results are merged and compared by object identity, never by tag equality. Added after the hunting pass: (R15.4) also the groups of two results are compared by identity; (R15.5) every fixed-text alternative of the tokenizer pattern has a kind in the Token table.'
 
 ACCESSORS = ["find_tags", "find_wildcard_tags", "find_exact_tags", "find_def_tags", "find_tags_with_term",
              "get_all_tags", "get_all_groups", "tags", "groups", "find_placeholder_tag"]
@@ -87,8 +87,39 @@ def run(ctx):
                         and "len(" not in involved:
                     ctx.violation("R15.4", m.qualname, c, loc(m, c),
                                   "tags of two results are compared with == (equality) instead of identity")
+                elif any(isinstance(o, (ast.Eq, ast.NotEq)) for o in ops) and norm(c.left).endswith(".group") \
+                        and norm(c.comparators[0]).endswith(".group") and not _only_guards_raise(m, c):
+                    ctx.violation("R15.4", m.qualname, c, loc(m, c),
+                                  "the groups of two results are compared with ==/!= (structural, order-sensitive equality) instead "
+                                  "of identity: results found in two different but equal-looking sibling groups count as the same "
+                                  "result and one is dropped, so the answer changes when siblings are reordered")
     ctx.floor("R15.4", "identity comparisons in the merging functions", n_id, 3)
     ctx.ok("R15.4", "%d identity comparisons, no equality/membership test on tag lists in %d merging functions" % (n_id, len(mergers)), "")
+
+    # ---------------- R15.5: every symbol the tokenizer splits off is a symbol the token table knows
+    ctx.rule("R15.5", "every literal alternative of the tokenizer's pattern is a key of the Token kind table")
+    tok = qh.methods.get("_tokenize")
+    tcls = prog.find_class("Token")
+    tinit = tcls.methods.get("__init__")
+    if tok is None or tinit is None:
+        raise AnalysisError("R15.5 anchors QueryHandler._tokenize / Token.__init__ vanished")
+    ctx.saw(tok)
+    ctx.saw(tinit)
+    keys = set()
+    for d in walk_no_nested(tinit.node):
+        if isinstance(d, ast.Dict) and d.keys and all(isinstance(k, ast.Constant) and isinstance(k.value, str) for k in d.keys):
+            keys |= {k.value for k in d.keys}
+    ctx.floor("R15.5", "symbols in the Token kind table", len(keys), 12)
+    pattern, pnode = _folded_pattern(tok)
+    if pattern is None:
+        raise AnalysisError("R15.5: the tokenizer's pattern is no longer a constant-foldable string")
+    lits = _literal_alternatives(pattern)
+    ctx.floor("R15.5", "literal alternatives in the tokenizer's pattern", len(lits), 10)
+    for lit in sorted(lits):
+        ctx.check(lit in keys, "R15.5", tok.qualname, "alternative %r" % lit, loc(tok, pnode),
+                  "the tokenizer splits off %r as one token but the Token table has no kind for it, so it becomes an ordinary "
+                  "search term: unbalanced text such as %r compiles, and balanced nested brackets written without a blank "
+                  "are rejected" % (lit, lit), desc="alternative %r has a token kind" % lit)
 
     # ---------------- R15.3
     gp = qh.methods.get("_handle_grouping_op")
@@ -172,3 +203,72 @@ def run(ctx):
             ctx.check(g is not None, "R15.3", gnt.qualname, r.ast, loc(gnt, r.ast),
                       "_get_next_token indexes the token list without the end-of-input test and its raise",
                       desc="end-of-input raises the parse error")
+
+
+def _only_guards_raise(m, cmp):
+    """The comparison is the whole test of an `if` whose body only raises (an internal sanity check, not a decision)."""
+    for st in ast.walk(m.node):
+        if isinstance(st, ast.If) and st.test is cmp and (all(isinstance(b, ast.Raise) for b in st.body) or
+                                                         (st.orelse and all(isinstance(b, ast.Raise) for b in st.orelse))):
+            return True
+    return False
+
+
+def _folded_pattern(fi):
+    """Constant-fold the string handed to re.compile in the tokenizer (plain / f-string locals)."""
+    env = {}
+    node = None
+
+    def fold(e):
+        if isinstance(e, ast.Constant) and isinstance(e.value, str):
+            return e.value
+        if isinstance(e, ast.Name):
+            return env.get(e.id)
+        if isinstance(e, ast.JoinedStr):
+            parts = []
+            for v in e.values:
+                if isinstance(v, ast.FormattedValue):
+                    if v.format_spec is not None or v.conversion != -1:
+                        return None
+                    parts.append(fold(v.value))
+                else:
+                    parts.append(fold(v))
+            return None if any(p is None for p in parts) else "".join(parts)
+        if isinstance(e, ast.BinOp) and isinstance(e.op, ast.Add):
+            a, b = fold(e.left), fold(e.right)
+            return None if a is None or b is None else a + b
+        return None
+    out = None
+    for st in fi.node.body:
+        if isinstance(st, ast.Assign) and len(st.targets) == 1 and isinstance(st.targets[0], ast.Name):
+            val = fold(st.value)
+            if val is not None:
+                env[st.targets[0].id] = val
+        for c in ast.walk(st):
+            if isinstance(c, ast.Call) and call_name(c) in ("compile", "findall", "finditer") and c.args and out is None:
+                val = fold(c.args[0])
+                if val is not None:
+                    out, node = val, c
+    return out, node
+
+
+def _literal_alternatives(pattern):
+    """Alternatives of the pattern that are fixed texts (no class, no repeat)."""
+    import re._parser as sre
+    from re._constants import BRANCH, LITERAL, SUBPATTERN
+    lits = set()
+
+    def alts(items):
+        items = list(items)
+        if len(items) == 1 and items[0][0] is SUBPATTERN:
+            return alts(items[0][1][3])
+        if len(items) == 1 and items[0][0] is BRANCH:
+            res = []
+            for br in items[0][1][1]:
+                res.extend(alts(br))
+            return res
+        return [items]
+    for a in alts(sre.parse(pattern)):
+        if a and all(op is LITERAL for op, _ in a):
+            lits.add("".join(chr(v) for _, v in a))
+    return lits
